@@ -8,7 +8,7 @@ LEVEL = 'exploration'
 
 def run(ck, replay=None):
     quick = ck.tier == 'quick'
-    ck.cov['rule'] = ('TLC evaluates External.tla: for every outcome of a helper process (exit codes %s, death by signals 1-15) the exit number murex '
+    ck.cov['rule'] = ('TLC evaluates External.tla: for every outcome of a helper process (exit codes %s, death by signals 1-15, and exit 0/3 while a descendant keeps the inherited stdout/stderr open for 3 s) the exit number murex '
                       'must report, and - through the chain rules of RunModes.tla - whether a marker command joined by ; && || or following it inside '
                       '`try` runs; each row is executed by the real interpreter with a real child process whose actual wait status is checked '
                       'independently first.  non-trivial = non-zero status or signal; distinct = different (outcome, context).' % (
@@ -35,7 +35,7 @@ def run(ck, replay=None):
     discarded = 0
     for c in cases:
         k = (c['how'], c['n'])
-        want_rc = c['n'] if c['how'] == 'exit' else -c['n']
+        want_rc = c['n'] if c['how'] in ('exit', 'linger') else -c['n']
         if real[k] != want_rc:
             discarded += 1
             continue
@@ -47,7 +47,7 @@ def run(ck, replay=None):
                'try': 'try { %s; out marker }' % cmd}[c['ctx']]
         jobs.append({'id': cid, 'src': src, 'timeout_ms': 20000})
         meta[cid] = (c, src)
-    res = prog.run_programs(ck, jobs, shards=8, tag='c21')
+    res = prog.run_programs(ck, jobs, shards=12, tag='c21')
     nontriv = set()
     for cid, (c, src) in meta.items():
         x = res.get(cid)
